@@ -18,26 +18,29 @@ PROP = dict(
                      '(the kernel dereferences its physical address)',
                      'frame numbers < 2^40 and flags outside bits 12..51 (x86-64 entry format; D13 is a domain boundary)',
                      'pages outside the recursive slot (top-level index 511)'],
-        level_text='Lean theorems over an executable model of map.go/pdt.go with an explicit physical memory and a hardware MMU walk: '
-                   'recursive_window (the entry address walk computes at every level dereferences, through the MMU from CR3, to the right '
-                   'word of the right table - the recursive-mapping trick is proved, also for an inactive table swapped into slot 511), '
-                   'translate_correct (Translate = the hardware walk, for every address), map_refines_partial / unmap_refines / '
-                   'unmap_unmapped (exact post-state: one word changes, hardware view of the page, flush list, no allocation), '
-                   'map_new_level_step (any level: the allocated frame is linked Present|RW and exactly that frame is cleared - the Memset '
-                   'address resolves to it through the window), map_new_leaf_table (whole Map creating one level: hardware view, new '
-                   'table empty except the entry), map_alloc_failure (allocator empty: error and the state is unchanged), '
-                   'other_pages_unchanged (frame rule for the hardware walk), inactive_leaves_active_bit_identical_partial, region_pages, '
-                   'setframe_needs_40_bits (negative witness D13). The model is tied to the Go code by regenerated constants (a changed '
-                   'shift or mask breaks the proofs) and by a differential run of the real code over a software MMU with a full '
-                   'physical-memory comparison after every call; the property statement is evaluated by an independent oracle on the '
-                   'implementation\'s page tables.',
-        level_note='Partial: the whole-operation theorems about Map cover zero or one new table level and allocator failure at the first missing '
-                   'level; two/three new levels in one call (only the per-level step is proved), failure after partial allocation, the frame '
-                   'rule across new levels, inactive tables that grow, and the induction over whole histories are NOT proved - they are '
-                   'carried by the correspondence run (model = code on every generated history, including allocator failure at every '
-                   'point and inactive tables) and by the oracle clauses map-exact-entry, others-unchanged, new-level-empty, '
-                   'alloc-error-iff, fail-no-translation-change, inactive-leaves-active-identical, region-maps-exact-pages. '
+        level_text='Lean theorems over an executable model of map.go/pdt.go with an explicit physical memory and a hardware MMU walk. '
+                   'recursive_window: the entry address walk computes at every level dereferences, through the MMU from CR3, to the right '
+                   'word of the right table (also for an inactive table swapped into slot 511). map_refines: for every well-formed state '
+                   '(tables form a tree, allocator frames fresh), page outside the recursive slot, frame and flags, Map never faults; on '
+                   'success the abstract address space (hwEntry = present leaf entry the hardware reaches) is the old one updated at the '
+                   'page to frame<<12|flags, all other pages unchanged, flush list [page]; on allocator failure at any point (after any '
+                   'number of new levels) or the zero-frame guard the error is returned and no page changes; every new table is all-zero '
+                   'except the path entry; memory outside the tree is untouched; well-formedness is preserved. unmap_full, '
+                   'translate_correct / translate_abstract (Translate = hardware walk = abstract entry + offset), history (any list of '
+                   'Map/Unmap requests: the final address space is the fold of the abstract updates - most recent successful Map wins, '
+                   'unmapped absent, others unchanged, failures change nothing), inactive_leaves_active_bit_identical (PDT.Map on an '
+                   'inactive table, every case: every word outside the inactive tree, the swapped/restored entry 511 included, is '
+                   'bit-identical; the inactive space changes as map_refines says), region_pages, setframe_needs_40_bits (D13). The model '
+                   'is tied to the Go code by regenerated constants (a changed shift or mask breaks the proofs) and by a differential run '
+                   'of the real code over a software MMU with a full physical-memory comparison after every call; the property statement '
+                   'is also evaluated by an independent oracle on the implementation\'s page tables.',
+        level_note='Proved for the model, all cases: Map (0-3 new levels, failure anywhere), Unmap, Translate, histories, PDT.Map '
+                   'and PDT.Unmap on an inactive table. Not proved in Lean (carried by correspondence + oracle): PDT.Init '
+                   '(differential only), MapRegion/IdentityMapRegion as whole operations (their page loop is '
+                   'proved to be Map over consecutive pages/frames, region_pages, and histories of Map are covered). Hypotheses: the '
+                   'tables reachable from the root form a tree and the allocator hands out RAM frames < 2^40 that are pairwise distinct '
+                   'and outside the tree (Good; holds of the boot state and is preserved by every request), pages outside slot 511. '
                    'Trusted: Lean kernel (+ propext, Classical.choice, Quot.sound), the theorem statements, the software MMU of the '
-                   'harness and the hardware walk of the model (x86-64 4-level paging, 4 KiB pages; huge-page bit = stop), differential '
-                   'testing is not a proof about the Go code. Domain: frames < 2^40, flags outside bits 12-51, pages outside slot 511.',
+                   'harness and the hardware walk of the model (x86-64 4-level paging, 4 KiB pages; huge-page bit = stop); differential '
+                   'testing is not a proof about the Go code. D13: frames >= 2^40 spill into flag bits (domain boundary).',
 )
